@@ -9,6 +9,7 @@
      "0"  digits                      "PCT" is "%"                       "OP" other ASCII punctuation ($ ^ ` | ~ =)
      "SP" space  "TAB"  "LF"  "CR"  "FF"   (CSS whitespace / newlines)
      "CTL" other C0 controls and DEL (non-printable: bad-url in CSS, rejected by net/url)
+     "VT"  U+000B: like CTL for CSS and net/url, but strings.TrimSpace trims it
      "UWS" non-ASCII white space that strings.TrimSpace trims (U+0085 U+00A0 U+2028 ...): an ident character in CSS
      "NA"  any other non-ASCII scalar                                                                  *)
 EXTENDS Integers, Sequences, TLC
@@ -22,7 +23,8 @@ CssPunct == {";", ":", "{", "}", "(", ")", "[", "]", CDQ, "'", CBSL, "/", "*", "
              "-", "+", ".", "_", "&", "?", "OP"}
 CssWs == {"SP", "TAB", "LF", "CR", "FF"}
 CssNl == {"LF", "CR", "FF"}
-CssSym == CssLower \cup CssUpper \cup CssPunct \cup CssWs \cup {"0", "CTL", "UWS", "NA"}
+CssSym == CssLower \cup CssUpper \cup CssPunct \cup CssWs \cup {"0", "CTL", "VT", "UWS", "NA"}
+CssCtl == {"CTL", "VT"}
 
 CLower(c) == CASE c = "U" -> "u" [] c = "R" -> "r" [] c = "L" -> "l" [] c = "S" -> "s" [] c = "Z" -> "z" [] OTHER -> c
 CIsLetter(c) == c \in CssLower \cup CssUpper
@@ -40,7 +42,7 @@ SchStep(s, c0) ==
     IF s \in {<<"off">>, <<"done">>, <<"BAD">>} THEN s
     ELSE IF c \in {"TAB", "LF", "CR"} THEN s
     ELSE IF s = <<"lead">> THEN
-         IF c \in {"SP", "CTL", "FF"} THEN <<"lead">>
+         IF c \in {"SP", "CTL", "VT", "FF"} THEN <<"lead">>
          ELSE IF CIsLetter(c) THEN (IF SchIsPrefix(<<c>>) THEN <<c>> ELSE <<"other">>) ELSE <<"done">>
     ELSE IF c = ":" THEN (IF s \in SchemeNames THEN <<"done">> ELSE <<"BAD">>)
     ELSE IF CIsLetter(c) \/ c \in {"0", "+", "-", "."} THEN
@@ -104,7 +106,7 @@ CssStep(s, c) ==
     ELSE IF s.m = "url" THEN
         IF c = ")" THEN [Pop(s) EXCEPT !.m = "val", !.sc = <<"off">>]
         ELSE IF c \in CssWs THEN [s EXCEPT !.m = "urlws"]
-        ELSE IF c \in {CDQ, "'", "(", "CTL"} THEN [s EXCEPT !.m = "badurl", !.ev = Ev(s, "BadUrl")]
+        ELSE IF c \in {CDQ, "'", "(", "CTL", "VT"} THEN [s EXCEPT !.m = "badurl", !.ev = Ev(s, "BadUrl")]
         ELSE IF c = CBSL THEN [SchFeedEscaped(s) EXCEPT !.e = -1]
         ELSE SchFeed(s, c)
     ELSE IF s.m = "urlws" THEN
